@@ -183,6 +183,14 @@ for g in GROUPS:
             X = alg(pp, g, x).Exp()
             env.holds('returns_group_ltype', X.ltype is ltype(pp, g))
             env.eq('is_Function_forward', raw(X), getattr(op, a + '_Exp').forward(x))
+            # Exp is a function of the current value of x only: no state survives between calls on the same LieTensor object
+            xl = alg(pp, g, x.clone())
+            X1 = xl.Exp()
+            ref = raw(X1).clone()
+            raw(X1).mul_(0)                                           # the caller overwrites the element it was handed
+            env.eq('a second Exp of the same object is not affected by in-place edits of the first result', raw(xl.Exp()), ref)
+            xl.tensor().mul_(2)                                       # x itself is updated in place
+            env.eq('after an in-place update of x, Exp is the Exp of the new value', raw(xl.Exp()), getattr(op, a + '_Exp').forward(2 * x))
     mk()
 
 
